@@ -168,14 +168,14 @@ def region_map(chk, P):
         chk.ob("C10.O1", "end region is r above attach", False, site=site, found=c2, expect="r >= attach", key="C10.O1|orientation-end")
 
 
-def _point_syms(I, P, pref, rname):
-    """Spline_Point-like object with symbolic r, v, deriv, deriv2 properties"""
+def _point_syms(I, P, pref, rname, value=None):
+    """Spline_Point-like object with symbolic r, v, deriv, deriv2 properties (value: a concrete end value instead of the symbol)"""
     class Pt(object):
         def get_r(self, J):
             return Num(ep.sym(rname))
 
         def get_v(self, J):
-            return Num(ep.sym(pref + "v"))
+            return Num(ep.sym(pref + "v")) if value is None else Num(ep.const(value))
 
         def get_deriv(self, J):
             return Num(ep.sym(pref + "d1"))
@@ -203,9 +203,14 @@ def exp_spline(chk, P):
         def assume(cond, s_nonpos=s_nonpos, e_nonpos=e_nonpos):
             if isinstance(cond, Cond) and cond.kind == "cmp" and cond.args[0] in ("<=", "<"):
                 left = repr(cond.args[1])
-                if left == "sv":
+                right_zero = isinstance(cond.args[2], Num) and cond.args[2].rf.is_zero()
+                if left == "sv" and repr(cond.args[2]) == "ev":      # min(sy, ey): which one is smaller
+                    return s_nonpos and not e_nonpos
+                if left == "ev" and repr(cond.args[2]) == "sv":
+                    return e_nonpos and not s_nonpos
+                if left == "sv" and right_zero:
                     return s_nonpos
-                if left == "ev":
+                if left == "ev" and right_zero:
                     return e_nonpos
                 if left in ("sv - ev", "-ev + sv"):        # min(sy, ey): which one is smaller
                     return s_nonpos and not e_nonpos
@@ -233,7 +238,8 @@ def exp_spline(chk, P):
                        found=coefs.items[i], expect="B%d" % i, key="C10.O2|%s|order%d" % (tag, i))
         C = I.num(coefs.items[6])
         if shift:
-            okC = not C.is_zero()
+            # the amount added is 1 - min(end values): the smaller end value becomes exactly 1, both are positive afterwards
+            okC = any(ep.equal(C, m - ep.const(1))[0] for m in (ep.sym("sv"), ep.sym("ev")))
         else:
             okC = C.is_zero()
         chk.ob("C10.O2", "[%s] the constant C is %s" % (scenario, "minus the amount added to the end values" if shift else "zero"), okC,
@@ -276,6 +282,34 @@ def exp_spline(chk, P):
             chk.ob("C10.O2", "[%s] right-hand side for %s is %s of W = V - C" % (scenario, what,
                    ["ln W", "W'/W", "W''/W - (W'/W)^2"][int(what[-1])]), ok, site=site, found=why or got[hit][1], expect=rhs,
                    key="C10.O2|%s|rhs|%s" % (tag, what))
+    # an end value of exactly zero (splining onto as.zero, a potential that crosses zero at the join) is not positive either:
+    # the shift is applied and its amount is 1 - min
+    for which, sval, evalue, smaller in (("attach", None, 0, "ev"), ("detach", 0, None, "sv")):
+        I = F.make_interp(P)
+        cap = SolveCapture()
+        numpy_model(I, cap, "B")
+
+        def assume0(cond, which=which):
+            if isinstance(cond, Cond) and cond.kind == "cmp" and cond.args[0] in ("<=", "<", ">", ">="):
+                a, b = cond.args[1], cond.args[2]
+                d = (a.rf - b.rf) if isinstance(a, Num) and isinstance(b, Num) else None
+                other = ep.sym("sv" if which == "attach" else "ev")       # the other end value is positive
+                if d is not None and ep.equal(d, other)[0]:
+                    return cond.args[0] in (">", ">=")
+                if d is not None and ep.equal(d, -other)[0]:
+                    return cond.args[0] in ("<", "<=")
+            return None
+        assume0.text = "Exp_Spline scenario: %s value exactly 0, the other end value positive" % which
+        I.assumption_fns.append(assume0)
+        try:
+            inst = I.instantiate(cls, [_point_syms(I, P, "s", "sx", sval), _point_syms(I, P, "e", "ex", evalue)], {}, None)
+            coefs = I.getattr(inst, "spline_coefficients")
+            C = I.num(coefs.items[6]) if isinstance(coefs, ListV) and len(coefs.items) == 7 else None
+        except RaiseSignal as e:
+            C = e.exc
+        ok = C is not None and not isinstance(C, ExcV) and ep.equal(C, ep.const(-1))[0]
+        chk.ob("C10.O2", "[%s value exactly 0] the end values are shifted by 1 - min = 1 before the logarithm is taken (C = -1)" % which, ok,
+               site=site, found=C, expect=-1, key="C10.O2|zero-%s|C" % which)
     # coefficient order matches exp_spline's signature
     I = F.make_interp(P)
     inst = F.form_instance(I, P, "exp_spline")
